@@ -24,6 +24,9 @@ type Clause struct {
 type LoopSpec struct {
 	Invariants []*Clause
 	Decreases  *Clause
+	Commutes   bool     // "loop k: commutes on T1, T2": order independence of a map-range loop (commute.go)
+	CommuteCont bool    // "commutes oncontinue ...": places compared at the back edge only
+	CommuteOn  []*SExpr // places (modifies-target syntax) that must not depend on the visiting order
 }
 
 type SpecFn struct {
@@ -285,8 +288,28 @@ func parseContractFile(path, pkgPath string) (*ContractFile, error) {
 						return nil, err
 					}
 					ls.Decreases = c
+				case strings.HasPrefix(r2, "commutes"):
+					ls.Commutes = true
+					r3 := strings.TrimSpace(r2[len("commutes"):])
+					if strings.HasPrefix(r3, "oncontinue") {
+						// the listed places are compared where both orders continue; where they leave the loop
+						// (break / return) only the way out and the results are compared
+						ls.CommuteCont = true
+						r3 = strings.TrimSpace(strings.TrimPrefix(r3, "oncontinue"))
+					} else {
+						r3 = strings.TrimSpace(strings.TrimPrefix(r3, "on"))
+					}
+					if r3 != "" {
+						for _, part := range splitTopLevel(r3, ',') {
+							e, err := parseSpec(strings.TrimSpace(part))
+							if err != nil {
+								return nil, fmt.Errorf("%s:%d: %v", path, s.line, err)
+							}
+							ls.CommuteOn = append(ls.CommuteOn, e)
+						}
+					}
 				default:
-					return nil, fmt.Errorf("%s:%d: loop clause must be invariant or decreases", path, s.line)
+					return nil, fmt.Errorf("%s:%d: loop clause must be invariant, decreases or commutes", path, s.line)
 				}
 			case "option":
 				for _, o := range strings.Fields(rest) {
